@@ -41,6 +41,13 @@ var interpStd = map[string]bool{
 	"gopkg.in/sorcix/irc.v2/internal": true,
 }
 
+// packages whose initializers are not run (reflection-driven registration only)
+var skipInit = map[string]bool{
+	"errors":                    true,
+	"encoding/binary":           true,
+	repoMod + "/internal/proto": true,
+}
+
 func (e *Engine) interpreted(path string) bool {
 	if e.interpPkgs[path] {
 		return true
@@ -102,7 +109,7 @@ func LoadEngine(repo, pkgPattern string, overlay map[string][]byte) (*Engine, er
 		for _, q := range imps {
 			visit(q)
 		}
-		if e.interpreted(p.Path()) && p.Path() != "errors" && p.Path() != "encoding/binary" {
+		if e.interpreted(p.Path()) && !skipInit[p.Path()] {
 			if sp := prog.Package(p); sp != nil {
 				e.initOrder = append(e.initOrder, sp)
 			}
@@ -125,8 +132,16 @@ func (e *Engine) intrinsic(fn *ssa.Function) (IntrinsicFn, bool) {
 	if o := fn.Origin(); o != nil {
 		name = o.String()
 	}
-	if len(fn.Blocks) == 0 && fn.Pkg == e.target {
-		if h, ok := harnessAPI(fn.Name()); ok {
+	isTarget := fn.Pkg == e.target
+	if o := fn.Origin(); o != nil && o.Pkg == e.target {
+		isTarget = true
+	}
+	if len(fn.Blocks) == 0 && isTarget {
+		nm := fn.Name()
+		if k := strings.IndexByte(nm, '['); k > 0 {
+			nm = nm[:k]
+		}
+		if h, ok := harnessAPI(nm); ok {
 			e.fnCache.Store(fn, h)
 			return h, true
 		}
@@ -196,6 +211,7 @@ type Stats struct {
 	Samples      []string
 	SolverUnknown int
 	CaseAsserting map[string]int // case label -> number of feasible paths that reached an assertion
+	CasePaths     map[string]int
 }
 
 type Explorer struct {
@@ -209,7 +225,8 @@ type Explorer struct {
 
 	mu      sync.Mutex
 	cond    *sync.Cond
-	work    [][]int
+	work    [][]int   // unowned items (initial)
+	stacks  [][][]int // per worker LIFO stacks
 	active  int
 	stats   Stats
 	stop    bool
@@ -226,6 +243,9 @@ func NewExplorer(eng *Engine, harness string, opts RunOpts) (*Explorer, error) {
 	if opts.Unwind == 0 {
 		opts.Unwind = 8
 	}
+	if opts.SplitMax == 0 {
+		opts.SplitMax = 3
+	}
 	if opts.MaxSteps == 0 {
 		opts.MaxSteps = 20_000_000
 	}
@@ -238,12 +258,14 @@ func NewExplorer(eng *Engine, harness string, opts RunOpts) (*Explorer, error) {
 	ex.stats.Cases = map[string]int{}
 	ex.stats.Functions = map[string]bool{}
 	ex.stats.CaseAsserting = map[string]int{}
+	ex.stats.CasePaths = map[string]int{}
 	return ex, nil
 }
 
 func (ex *Explorer) Run() *Stats {
 	start := time.Now()
 	ex.work = [][]int{{}}
+	ex.stacks = make([][][]int, ex.workers)
 	var wg sync.WaitGroup
 	for i := 0; i < ex.workers; i++ {
 		wg.Add(1)
@@ -277,22 +299,33 @@ func (ex *Explorer) workerLoop(id int) {
 		ex.stats.Queries.Unknown += w.solver.stats.Unknown
 		ex.stats.Queries.Errors += w.solver.stats.Errors
 		ex.stats.Queries.Time += w.solver.stats.Time
+		for i := range ex.stats.Queries.Hist {
+			ex.stats.Queries.Hist[i] += w.solver.stats.Hist[i]
+		}
 		ex.mu.Unlock()
 		w.solver.Close()
 	}()
 	npaths := 0
 	for {
 		ex.mu.Lock()
-		for len(ex.work) == 0 && ex.active > 0 && !ex.stop {
+		var item []int
+		for {
+			if ex.stop {
+				break
+			}
+			if item = ex.takeWork(id); item != nil {
+				break
+			}
+			if ex.active == 0 {
+				break
+			}
 			ex.cond.Wait()
 		}
-		if ex.stop || (len(ex.work) == 0 && ex.active == 0) {
+		if item == nil {
 			ex.cond.Broadcast()
 			ex.mu.Unlock()
 			return
 		}
-		item := ex.work[len(ex.work)-1]
-		ex.work = ex.work[:len(ex.work)-1]
 		ex.active++
 		ex.mu.Unlock()
 
@@ -327,6 +360,9 @@ func (ex *Explorer) workerLoop(id int) {
 		case "unwind", "steps":
 			ex.stats.Unwind[res.Msg]++
 		}
+		if in.caseLabel != "" {
+			ex.stats.CasePaths[in.caseLabel]++
+		}
 		if in.caseLabel != "" && (res.Kind == "done" || res.Kind == "assertfail" || res.Kind == "panic") {
 			if _, ok := ex.stats.CaseAsserting[in.caseLabel]; !ok {
 				ex.stats.CaseAsserting[in.caseLabel] = 0
@@ -341,7 +377,10 @@ func (ex *Explorer) workerLoop(id int) {
 		if ex.OnPath != nil {
 			ex.OnPath(in, res)
 		}
-		ex.work = append(ex.work, in.newWork...)
+		// push in reverse so that the first alternative is explored next (DFS locality)
+		for k := len(in.newWork) - 1; k >= 0; k-- {
+			ex.stacks[id] = append(ex.stacks[id], in.newWork[k])
+		}
 		if !ex.deadline.IsZero() && time.Now().After(ex.deadline) {
 			ex.stop = true
 			ex.stats.Notes["deadline-reached"] = true
@@ -349,6 +388,33 @@ func (ex *Explorer) workerLoop(id int) {
 		ex.cond.Broadcast()
 		ex.mu.Unlock()
 	}
+}
+
+// takeWork (called with ex.mu held): own stack top first, then the unowned
+// pool, then steal the oldest (shallowest) item of the fullest other stack.
+func (ex *Explorer) takeWork(id int) []int {
+	if st := ex.stacks[id]; len(st) > 0 {
+		it := st[len(st)-1]
+		ex.stacks[id] = st[:len(st)-1]
+		return it
+	}
+	if len(ex.work) > 0 {
+		it := ex.work[len(ex.work)-1]
+		ex.work = ex.work[:len(ex.work)-1]
+		return it
+	}
+	best, bn := -1, 0
+	for k, st := range ex.stacks {
+		if len(st) > bn {
+			best, bn = k, len(st)
+		}
+	}
+	if best < 0 {
+		return nil
+	}
+	it := ex.stacks[best][0]
+	ex.stacks[best] = ex.stacks[best][1:]
+	return it
 }
 
 func (ex *Explorer) runPath(w *Worker, prefix []int) (in *Interp, res *PathResult) {
@@ -486,3 +552,21 @@ func verifRoot() string {
 	}
 	return "/verif"
 }
+
+// RunSingle executes one path with tracing to stderr (development aid).
+func (ex *Explorer) RunSingle(dec []int) {
+	sv, err := NewSolver(ex.solver, ex.timeout)
+	if err != nil {
+		panic(err)
+	}
+	defer sv.Close()
+	w := &Worker{b: NewBuilder(), solver: sv}
+	traceOn = true
+	in, res := ex.runPath(w, dec)
+	fmt.Printf("RESULT kind=%s msg=%s label=%s decisions=%v\n", res.Kind, res.Msg, res.Label, in.decisions)
+	for i, c := range in.pc {
+		fmt.Printf("  pc[%d] %s\n", i, showTerm(c, 8))
+	}
+}
+
+var traceOn bool
